@@ -61,6 +61,7 @@ func NewParty(name string, salt uint64) *Party {
 
 // Net owns the relay server and all RPC streams.
 type Net struct {
+	evSeq   int
 	S       *dsim.Sim
 	Server  *signaling_server.Server
 	Log     *logrus.Entry
@@ -140,16 +141,19 @@ func (n *Net) Close() {
 
 // Stream is one RPC stream (Session or Listen) between a party and the relay.
 type Stream struct {
-	N      *Net
-	Name   string
-	Kind   string // "session" | "listen"
-	Owner  *Party
-	C2S    *dsim.Pipe
-	S2C    *dsim.Pipe
-	cliCtx context.Context
-	cliCan context.CancelFunc
-	srvCtx context.Context
-	srvCan context.CancelFunc
+	// StartSeq / DoneSeq order "the relay's handler for this stream was started" and "it
+	// returned" over all streams (0 = not yet).
+	StartSeq, DoneSeq int
+	N                 *Net
+	Name              string
+	Kind              string // "session" | "listen"
+	Owner             *Party
+	C2S               *dsim.Pipe
+	S2C               *dsim.Pipe
+	cliCtx            context.Context
+	cliCan            context.CancelFunc
+	srvCtx            context.Context
+	srvCan            context.CancelFunc
 
 	mu        sync.Mutex
 	started   bool
@@ -278,6 +282,8 @@ func (st *Stream) onC2S(it dsim.Item) {
 			return
 		}
 		st.started = true
+		st.N.evSeq++
+		st.StartSeq = st.N.evSeq
 		st.mu.Unlock()
 		go st.serve()
 	case "eof":
@@ -316,6 +322,8 @@ func (st *Stream) FinishServer(err error) {
 	st.mu.Lock()
 	st.SrvDone = true
 	st.SrvErr = err
+	st.N.evSeq++
+	st.DoneSeq = st.N.evSeq
 	st.mu.Unlock()
 	txt := "<nil>"
 	if err != nil {
